@@ -216,6 +216,8 @@ def step(h, tier):
 # ---------------------------------------------------------------------------------------------------------------------
 FAILS = ['missing', 'missing-after-wrong-shape', 'wrong-dtype', 'wrong-dtype-second', '3d', 'bad-window', 'small-chunk',
          'dir-target', 'bad-data-type', 'empty-dict', 'small-chunk-other-shape',
+         # the write fails inside the frame's set-up from its index data, after a part of it was done
+         'index-2d', 'index-nonuniform-in-hc-mode',
          # the write fails while the bytes of a set are being made (checks run per object, after earlier objects of
          # the same set were converted); the cause is then removed through the public setters
          'eflr-param-values', 'eflr-zone-domain', 'eflr-chan-element-limit',
@@ -257,10 +259,16 @@ KIND_REJECT = {
 
 
 def shards(tier):
-    return [{'fw': f} for f in FAILS + OKS] + [{'kinds': True}]
+    return [{'fw': f} for f in FAILS + OKS] + [{'kinds': True}, {'shared': True}]
 
 
 def cases(shard, tier):
+    if shard.get('shared'):
+        # a call on a second logical file that is refused because its set belongs to the first logical file
+        for k in KIND_REJECT:
+            for when in ('first-call', 'after-origin', 'last-but-one'):
+                yield {'sharedrej': k, 'when': when}
+        return
     if shard.get('kinds'):
         for k in KIND_REJECT:
             for where in ('before-first', 'after-one', 'twice', 'first-of-all', 'rejected-assignment'):
@@ -326,6 +334,10 @@ def _failing_kwargs(kind, path):
         kw['data'] = {'A': g['A'], 'B': np.zeros((3, 2, 2), dtype=np.uint16)}
     elif kind == 'bad-window':
         kw['from_idx'] = 99
+    elif kind == 'index-2d':
+        kw['data'] = {'A': np.arange(9000, 9006, dtype=np.float64).reshape(3, 2), 'B': g['B']}
+    elif kind == 'index-nonuniform-in-hc-mode':
+        kw['data'] = {'A': np.array([7001.0, 7002.0, 7024.0]), 'B': g['B']}
     elif kind == 'small-chunk':
         kw['output_chunk_size'] = 4
     elif kind == 'small-chunk-other-shape':
@@ -409,7 +421,50 @@ def kind_specs(c):
     return mk(full), mk(clean)
 
 
+def shared_specs(c):
+    import json
+    k = c['sharedrej']
+    _, good = KIND_REJECT[k]
+    A = [S.op_lf(), S.op_origin(),
+         S.op_add('channel', 'C', 'CHAN', data=S.arr_spec('uint8', [2], [1, 2])),
+         S.op_add('channel', 'C2', 'CHAN2', data=S.arr_spec('uint8', [2], [3, 4])),
+         S.op_add('frame', 'F', 'FRAME', channels=[{'$ref': 'C'}]), S.op_add('zone', 'Z', 'ZONE')]
+    if k != 'frame':
+        A.append(S.op_add('frame', 'F2', 'FRAME2', channels=[{'$ref': 'C2'}]))
+    A.append(S.op_add(k, 'AX', 'X', **good))                      # the first logical file owns the unnamed set of the kind
+    lfb = {'op': 'lf', 'h': 'L1', 'kw': {'fh_id': 'SECOND', 'fh_sequence_number': 2}}
+    rej = S.op_add(k, 'RJ', 'X', lf='L1', expect='raise', **good)    # same (unnamed) set from the second logical file
+    sn = {'set_name': 'S2'}
+    B = [S.op_origin('OB', 'ORIGIN-B', lf='L1', **sn),
+         S.op_add('channel', 'CB', 'CHAN', lf='L1', data=S.arr_spec('uint8', [3], [5, 6, 7]), **sn),
+         S.op_add('channel', 'CB2', 'CHAN2', lf='L1', data=S.arr_spec('uint8', [3], [7, 8, 9]), **sn),
+         S.op_add('frame', 'FB', 'FRAME', lf='L1', channels=[{'$ref': 'CB'}], **sn)]
+    if k != 'frame':
+        B.append(S.op_add('frame', 'FB2', 'FRAME2', lf='L1', channels=[{'$ref': 'CB2'}], **sn))
+    goodb = json.loads(json.dumps(good).replace('"C2"', '"CB2"'))
+    bx = S.op_add(k, 'BX', 'X', lf='L1', set_name='K2', **goodb)
+    pos = {'first-call': 0, 'after-origin': 1, 'last-but-one': len(B)}[c['when']]
+    mk = lambda b: {'sul': {'max_record_length': 8192}, 'ops': A + [lfb] + b + [bx], 'write': {}}
+    return mk(B[:pos] + [rej] + B[pos:]), mk(B)
+
+
 def run_case(case):
+    if 'sharedrej' in case:
+        full, clean = shared_specs(case)
+        notes, got = _run(full)
+        _, want = _run(clean)
+        if isinstance(want, str):
+            return Outcome('harness', [("C20:harness:clean-shared-spec-failed", f"{want} | {case}")], False)
+        viol = [(f"C20:shared:{n}", f"{case}") for n in notes]
+        if notes:
+            return Outcome('not-rejected', viol, True)
+        if isinstance(got, str):
+            viol.append((f"C20:later-write-fails:shared:{case['sharedrej']}", f"{got} | {case}"))
+        elif got != want:
+            viol.append((f"C20:trace:{_classify(got, want)}:refused-shared-set",
+                         f"file differs from the history without the refused {case['sharedrej']} call on the second "
+                         f"logical file | {case}"))
+        return Outcome(f"ok:shared:{case['when']}", viol, True, digest=sha(got) if not isinstance(got, str) else got[:30])
     if 'kindrej' in case:
         full, clean = kind_specs(case)
         notes, got = _run(full)
@@ -481,7 +536,12 @@ def run_case(case):
             os.makedirs(dpath, exist_ok=True)
             target = dpath
         try:
-            b.df.write(target, **kw)
+            if kind.endswith('in-hc-mode'):
+                from dliswriter import high_compatibility_mode
+                with high_compatibility_mode():
+                    b.df.write(target, **kw)
+            else:
+                b.df.write(target, **kw)
             if not kind.startswith('ok-'):
                 viol.append((f"C20:failing-write-accepted:{kind}", f"a write designed to fail returned normally | {case}"))
         except Exception as e:  # noqa
